@@ -44,6 +44,8 @@ type windowD struct {
 	Late     []latePair `json:"late,omitempty"`     // retained responses read again later
 	Overlaps int64      `json:"overlaps,omitempty"` // concurrent entries into one node's Process during the window
 	LateBad  int        `json:"late_mismatches,omitempty"`
+	CLI      []int       `json:"cli,omitempty"`     // cold windows: File/Image parameters whose value comes from a command line flag (lazy first read)
+	TmpDir   string      `json:"tmp_dir,omitempty"` // ... and the directory holding their files
 	Rounds   int         `json:"rounds,omitempty"` // cold windows: attempts on fresh instances inside one child process
 	Cold     bool        `json:"cold,omitempty"`  // the window ran in a child process on a FRESH instance: no id was ever looked up before
 	Crash    string      `json:"crash,omitempty"` // the child process died (e.g. "fatal error: concurrent map writes")
@@ -67,7 +69,7 @@ var (
 	unlockedReads = flag.Bool("unlocked-reads", true, "clients also call ModelVersion() and Schema() (documented-unlocked readers)")
 	attempts      = flag.Int("attempts", 300, "replay: number of re-runs of the recorded programs")
 	windowTimeout = flag.Duration("window-timeout", 10*time.Second, "deadline for one window")
-	coldFlag      = flag.Int("cold", -1, "number of cold-start windows run in child processes (-1: n/12, at most 400)")
+	coldFlag      = flag.Int("cold", -1, "number of cold-start windows run in child processes (-1: n/16, at most 400)")
 	consumeFlag   = flag.Bool("consume", true, "clients also re-read retained responses of earlier windows slowly while updates run")
 )
 
@@ -78,6 +80,11 @@ func (g *liveGraph) do(t int, op opD, clock *atomic.Uint64) (rc rec) {
 		if e := recover(); e != nil {
 			rc.Res = clock.Add(1)
 			rc.Resp = respD{K: "fail"}
+			if op.K == "a" && rc.Inv != 0 {
+				// the client recovers a panicking artifact request (AppServer.writeProducerDataToRequest does):
+				// response class "panicked"; whether that is a legal response is decided by the specification
+				rc.Resp = respD{K: "panic"}
+			}
 			rc.Note = "panic: " + fmt.Sprint(e)
 		}
 	}()
@@ -110,7 +117,7 @@ func (g *liveGraph) do(t int, op opD, clock *atomic.Uint64) (rc rec) {
 		}
 	case "a":
 		name := g.shape.Prods[op.Prod].Name
-		rc.F = g.prodF[op.Prod]
+		rc.F, rc.Bad = g.prodF[op.Prod], g.prodB[op.Prod]
 		rc.Inv = clock.Add(1)
 		a := g.inst.Artifact(name)
 		rc.Res = clock.Add(1)
@@ -279,6 +286,9 @@ func runWindow(g *liveGraph, progs [][]opD, clock *atomic.Uint64) (recs []rec, t
 				runtime.Gosched()
 			}
 			for _, op := range prog {
+				if (op.K == "v" || op.K == "s") && !*unlockedReads {
+					continue // replayed programs may contain them; the -race run leaves the documented-unlocked readers out
+				}
 				ch <- msgT{t: t, r: g.do(t, op, clock)}
 			}
 			ch <- msgT{done: true, t: t}
@@ -324,7 +334,7 @@ func runWindow(g *liveGraph, progs [][]opD, clock *atomic.Uint64) (recs []rec, t
 					op := progs[t][count[t]]
 					rc := rec{T: t, Op: op, Resp: respD{K: "fail"}, Note: "call did not return within the window deadline"}
 					if op.K == "a" {
-						rc.F = g.prodF[op.Prod]
+						rc.F, rc.Bad = g.prodF[op.Prod], g.prodB[op.Prod]
 					}
 					rc.Inv = clock.Add(1)
 					rc.Res = clock.Add(1)
@@ -761,6 +771,20 @@ func stats(run *hx.Run, w *windowD) {
 			break
 		}
 	}
+	for _, n := range w.Shape.Nodes {
+		if n.Kind == "pshow" {
+			run.Count("window:with-panicking-nodes")
+			break
+		}
+	}
+	for k := range w.Calls {
+		if w.Calls[k].Resp.K == "panic" {
+			run.Count("resp:artifact-panicked")
+		}
+	}
+	if len(w.CLI) > 0 {
+		run.Count("window:cold-with-cli-backed-parameters")
+	}
 	for _, pr := range w.Shape.Prods {
 		if pr.Kind == "gltf" {
 			run.Count("window:with-gltf-scene")
@@ -803,7 +827,7 @@ func coldChild() {
 	for k := 0; k < rounds; k++ {
 		res = w
 		res.Ver = 0 // a fresh instance; nothing is read before the clients start
-		g := build(w.Shape, w.Init, &jit{level: w.Jitter})
+		g := buildCLI(w.Shape, w.Init, &jit{level: w.Jitter}, w.CLI, w.TmpDir)
 		oneWindow(g, &res, -1, clock)
 		if res.flagged() {
 			break
@@ -815,7 +839,16 @@ func coldChild() {
 func runCold(w *windowD) {
 	w.Cold = true
 	if w.Rounds == 0 {
-		w.Rounds = 12
+		w.Rounds = 8
+	}
+	if len(w.CLI) > 0 {
+		dir, err := os.MkdirTemp("", "c13-cold-")
+		if err != nil {
+			w.CLI = nil
+		} else {
+			w.TmpDir = dir
+			defer os.RemoveAll(dir)
+		}
 	}
 	in, _ := json.Marshal(w)
 	ctx, cancel := context.WithTimeout(context.Background(), 3**windowTimeout+10*time.Second)
@@ -849,7 +882,7 @@ func runCold(w *windowD) {
 				if op.K == "u" || op.K == "b" || op.K == "g" || op.K == "a" {
 					rc := rec{T: t, Op: op, Resp: respD{K: "fail"}, Note: w.Crash, Inv: st, Res: st + 1}
 					if op.K == "a" {
-						rc.F = w.Shape.prodLists(op.Prod)
+						rc.F, rc.Bad = w.Shape.prodLists(op.Prod), w.Shape.prodBad(op.Prod)
 					}
 					st += 2
 					recs = append(recs, rc)
@@ -873,8 +906,25 @@ func runCold(w *windowD) {
 }
 
 // coldPrograms: every client starts with a parameter call on an id nobody has looked up yet
-func coldPrograms(r *hx.Rng, g *liveGraph, T int, init []int) [][]opD {
+func coldPrograms(r *hx.Rng, g *liveGraph, T int, init []int, cli []int) [][]opD {
 	progs := genPrograms(r, g, T, init, false)
+	defer func() {
+		// a CLI-backed parameter is loaded lazily by its FIRST read: let that first read be contended between
+		// ParameterData (client 0) and an artifact depending on it (client 1)
+		if len(cli) == 0 || T < 2 {
+			return
+		}
+		p := cli[r.Intn(len(cli))]
+		for k, f := range g.prodF {
+			for _, q := range f {
+				if q == p {
+					progs[0] = append([]opD{{K: "g", P: p}}, progs[0]...)
+					progs[1] = append([]opD{{K: "a", Prod: k}}, progs[1]...)
+					return
+				}
+			}
+		}
+	}()
 	P := len(g.par)
 	off := r.Intn(P)
 	for t := range progs {
@@ -933,7 +983,7 @@ func main() {
 		for a := 0; a < *attempts && reproduced < 3; a++ {
 			run.Count("replay:attempt")
 			if w.Cold {
-				nw := &windowD{Shape: w.Shape, Threads: w.Threads, Jitter: w.Jitter, Progs: w.Progs, Init: w.Init, Rounds: w.Rounds}
+				nw := &windowD{Shape: w.Shape, Threads: w.Threads, Jitter: w.Jitter, Progs: w.Progs, Init: w.Init, Rounds: w.Rounds, CLI: w.CLI}
 				runCold(nw)
 				if nw.flagged() {
 					reproduced++
@@ -991,22 +1041,36 @@ func main() {
 	// nobody has looked up yet
 	ncold := *coldFlag
 	if ncold < 0 {
-		if ncold = run.N / 12; ncold > 400 {
+		if ncold = run.N / 16; ncold > 400 {
 			ncold = 400
 		}
 	}
 	for k := 0; k < ncold && len(windows) < run.N; k++ {
 		var shape *shapeD
-		if r.Chance(1, 3) {
+		switch {
+		case k%3 == 0: // the fixed shapes with File / Image parameters
+			for _, f := range fixed {
+				if (f.Name == "slices" && k%2 == 0) || (f.Name == "images" && k%2 == 1) {
+					shape = f
+				}
+			}
+		case r.Chance(1, 3):
 			shape = hx.Pick(r, fixed)
-		} else {
+		default:
 			shape = randomShape(r, 1000+k)
 		}
 		T := r.Range(2, 8)
 		init0 := randomInit(r, shape)
 		g := build(shape, init0, &jit{})
 		cw := &windowD{Shape: shape, Threads: T, Jitter: *jitterFlag, Init: init0}
-		cw.Progs = coldPrograms(r, g, T, init0)
+		if r.Chance(3, 4) {
+			for p, t := range shape.PTypes {
+				if t == "file" || t == "image" {
+					cw.CLI = append(cw.CLI, p)
+				}
+			}
+		}
+		cw.Progs = coldPrograms(r, g, T, init0, cw.CLI)
 		runCold(cw)
 		windows = append(windows, cw)
 	}
